@@ -14,9 +14,14 @@ package conv_test
 
 import (
 	"bytes"
+	"crypto"
+	cryptorsa "crypto/rsa"
 	"crypto/sha256"
+	"crypto/x509"
+	"encoding/pem"
 	"fmt"
 	"os"
+	"path/filepath"
 	"reflect"
 	"sort"
 	"strings"
@@ -40,6 +45,7 @@ import (
 	"github.com/cloudflare/circl/sign"
 	"github.com/cloudflare/circl/sign/bls"
 	signschemes "github.com/cloudflare/circl/sign/schemes"
+	tssrsa "github.com/cloudflare/circl/tss/rsa"
 	"github.com/cloudflare/circl/vdaf/prio3/arith/fp128"
 	"github.com/cloudflare/circl/vdaf/prio3/arith/fp64"
 	"github.com/cloudflare/circl/zk/dleq"
@@ -717,6 +723,83 @@ func c11MiscTargets() []*c11Target {
 	return out
 }
 
+// c11LoadRSA reads the RSA fixture of /verif/ref/testdata (no key generation: crypto/rsa.GenerateKey is not deterministic).
+func c11LoadRSA() *cryptorsa.PrivateKey {
+	raw, err := os.ReadFile(filepath.Join(os.Getenv("VERIF_DIR"), "ref", "testdata", "rsa_1024.pem"))
+	if err != nil {
+		panic(err)
+	}
+	blk, _ := pem.Decode(raw)
+	if blk == nil {
+		panic("no PEM block in rsa_1024.pem")
+	}
+	if k, err := x509.ParsePKCS1PrivateKey(blk.Bytes); err == nil {
+		return k
+	}
+	k, err := x509.ParsePKCS8PrivateKey(blk.Bytes)
+	if err != nil {
+		panic(err)
+	}
+	return k.(*cryptorsa.PrivateKey)
+}
+
+// Threshold RSA key shares and signature shares. The alphabet mixes encodings WITH and WITHOUT the
+// optional cached 2*delta*s_i, and the object is used (Sign fills the cache) between decodes.
+func c11TssTargets() []*c11Target {
+	key := c11LoadRSA()
+	digest, err := tssrsa.PadHash(&tssrsa.PKCS1v15Padder{}, crypto.SHA256, &key.PublicKey, []byte("verif-c11 tss message"))
+	if err != nil {
+		panic(err)
+	}
+	var ksIn, ssIn []c11Input
+	for _, cache := range []bool{false, true} {
+		shares, err := tssrsa.Deal(verifmc.NewDetReader(fmt.Sprintf("c11-tss-deal-%v", cache)), 3, 2, key, cache)
+		if err != nil {
+			panic(err)
+		}
+		for i := range shares[:2] {
+			ksIn = append(ksIn, c11Input{fmt.Sprintf("share%d(cache=%v)", i+1, cache), c11MustBytes(shares[i].MarshalBinary())})
+			sg, err := shares[i].Sign(nil, &key.PublicKey, digest, false)
+			if err != nil {
+				panic(err)
+			}
+			if !cache {
+				ssIn = append(ssIn, c11Input{fmt.Sprintf("signshare%d", i+1), c11MustBytes(sg.MarshalBinary())})
+			}
+		}
+	}
+	ksIn = append(ksIn, c11Input{"short", []byte{0, 3, 0}}, c11Input{"truncated", append([]byte{}, ksIn[0].data[:12]...)})
+	ssIn = append(ssIn, c11Input{"short", []byte{0, 3, 0}}, c11Input{"allFF", c11Fill(len(ssIn[0].data), 0xff)})
+	return []*c11Target{
+		{name: "tss/rsa.KeyShare.UnmarshalBinary", fresh: func() interface{} { return new(tssrsa.KeyShare) },
+			decode: func(o interface{}, in []byte) (bool, string) {
+				return c11ErrDecode(o.(*tssrsa.KeyShare).UnmarshalBinary(in))
+			},
+			observe: func(o interface{}) []byte {
+				k := o.(*tssrsa.KeyShare)
+				m1 := c11MustBytes(k.MarshalBinary()) // before Sign: shows whether a cached value is present
+				sg, err := k.Sign(nil, &key.PublicKey, digest, false)
+				e := ""
+				var sb []byte
+				if err != nil {
+					e = err.Error()
+				} else {
+					sb = c11MustBytes(sg.MarshalBinary())
+				}
+				return c11Cat(m1, sb, []byte(e), []byte(fmt.Sprint(k.Index, k.Players, k.Threshold)))
+			}, inputs: ksIn},
+		{name: "tss/rsa.SignShare.UnmarshalBinary", fresh: func() interface{} { return new(tssrsa.SignShare) },
+			decode: func(o interface{}, in []byte) (bool, string) {
+				return c11ErrDecode(o.(*tssrsa.SignShare).UnmarshalBinary(in))
+			},
+			observe: func(o interface{}) []byte {
+				k := o.(*tssrsa.SignShare)
+				return c11Cat(c11MustBytes(k.MarshalBinary()), []byte(fmt.Sprint(k.Index, k.Players, k.Threshold)))
+			},
+			inputs: ssIn},
+	}
+}
+
 func c11AllDecodeTargets() []*c11Target {
 	var all []*c11Target
 	all = append(all, c11KemTargets()...)
@@ -727,6 +810,7 @@ func c11AllDecodeTargets() []*c11Target {
 	all = append(all, c11BlsKeys[bls.G2]("KeyG2SigG1")...)
 	all = append(all, c11CurveTargets()...)
 	all = append(all, c11MiscTargets()...)
+	all = append(all, c11TssTargets()...)
 	return all
 }
 
